@@ -346,7 +346,8 @@ fn map_label(label: &ironplc_dsl::diagnostic::Label, project: &dyn Project) -> l
                 start_line += 1;
                 start_offset = 0;
             } else {
-                start_offset += 1;
+                // The protocol counts characters in UTF-16 code units
+                start_offset += char.len_utf16() as u32;
             }
         }
 
@@ -357,7 +358,7 @@ fn map_label(label: &ironplc_dsl::diagnostic::Label, project: &dyn Project) -> l
                 end_line += 1;
                 end_offset = 0;
             } else {
-                end_offset += 1;
+                end_offset += char.len_utf16() as u32;
             }
         }
 
